@@ -167,6 +167,9 @@ class G:
     def select(self, depth=1, ncols=None, want_int=False, all_aliased=False, allow_setop=True, first_int=False):
         sources = []
         used_names = set()
+        want_setop = allow_setop and depth > 0 and not want_int and self.d(st.integers(0, 4)) == 0
+        if want_setop:
+            all_aliased = True  # a compound ORDER BY can only name result columns
         if depth > 0 and self.d(st.integers(0, 5)) == 0:
             sub = self.select(depth=depth - 1, all_aliased=True, allow_setop=False, first_int=True)
             src = {"key": self.key(), "sub": sub, "alias": self.alias("q")}
@@ -226,7 +229,7 @@ class G:
                     # a bare literal in ORDER BY would be read by SQLite as a column position - not a builder question
                     e, ty = self.icol(scope), "int"
                 items.append({"e": e, "alias": self.alias() if all_aliased or self.d(st.booleans()) else None, "type": ty})
-            if self.d(st.integers(0, 7)) == 0 and not want_int and "table" in sources[0]:
+            if self.d(st.integers(0, 7)) == 0 and not want_int and not want_setop and "table" in sources[0]:
                 part = self.icol(scope)
                 pk = ["col", sources[0]["key"], TABLES[sources[0]["table"]][0]]
                 wname = self.d(st.sampled_from(["ROW_NUMBER", "RANK", "SUM", "MAX"]))
@@ -248,10 +251,11 @@ class G:
                 order.append([i, self.d(st.sampled_from([None, "asc", "desc"]))])
             if self.d(st.booleans()):
                 limit = self.d(st.sampled_from([0, 1, 2, 3]))
-            if self.d(st.integers(0, 2)) == 0:
+            if self.d(st.integers(0, 4)) < 2:
                 offset = self.d(st.sampled_from([0, 1, 2]))
         setop = None
-        if allow_setop and depth > 0 and not order and self.d(st.integers(0, 8)) == 0 and not any(it["e"][0] == "win" for it in items):
+        setop_ok = (not order) or all(it["alias"] for it in items)  # a compound ORDER BY can only name result columns (aliases)
+        if want_setop and setop_ok and not any(it["e"][0] == "win" for it in items):
             other = self.select(depth=0, ncols=len(items), allow_setop=False)
             if not other["order"] and len(other["items"]) == len(items):
                 setop = [self.d(st.sampled_from(["union", "union_all", "intersect", "except_of"])), other]
